@@ -10,7 +10,12 @@ env = dict(os.environ, VERIF_JOBS=os.environ.get('VERIF_JOBS', '4'))
 def run(n):
     r = subprocess.run(['/verif/tools/run_seed.sh', n, tier], capture_output=True, text=True, env=env)
     line = (r.stdout.strip().split('\n') or [''])[-1]
-    obl = re.findall(r'violated obligation: (\S+?):', line)
+    out = ''
+    try:
+        out = open(f'/var/tmp/seedrun/{n}/out.txt').read()
+    except OSError:
+        pass
+    obl = re.findall(r'(?m)^violated obligation: (\S+?): ', out)
     return n, r.returncode, obl, line
 res = {}
 path = '/verif/seeded/RESULTS.json'
